@@ -32,7 +32,7 @@ REQUIRED_COUNTERS = {t: dict([("contract:%s:evaluated-direct" % f, 200) for f in
                              + [("contract:only_directed:evaluated-internal", 100), ("contract:skeleton:evaluated-internal", 100),
                                 ("contract:vstructures:evaluated-internal", 100), ("shielded-by-undirected-collider", 20)])
                      for t in ("quick", "thorough")}
-N = {"quick": {"random": 2500, "weighted": 4000, "internal_rate": 3}, "thorough": {"random": 40000, "weighted": 60000, "internal_rate": 1}}
+N = {"quick": {"random": 2500, "weighted": 4000, "internal_rate": 3}, "thorough": {"random": 200000, "weighted": 300000, "internal_rate": 1}}
 
 
 def gen(tier, seed, shard, nshards):
